@@ -18,7 +18,13 @@ COMMON_ASSUME = [
     "hash functions, sfa container, tempfile, quick_cache, crossbeam-skiplist, interval-heap are modelled by their specifications",
 ]
 
-def entry(title, instruments, rule, technique, level_text, level_note, design_ref, assumptions=None, trusted=None):
+def entry(title, instruments, rule, technique, level_text, level_note, design_ref, assumptions=None, trusted=None, modules=None):
+    d = _entry(title, instruments, rule, technique, level_text, level_note, design_ref, assumptions, trusted)
+    if modules:
+        d["modules"] = modules
+    return d
+
+def _entry(title, instruments, rule, technique, level_text, level_note, design_ref, assumptions=None, trusted=None):
     return {"title": title, "instruments": instruments, "rule": rule, "assumptions": COMMON_ASSUME + (assumptions or []),
             "trusted_base": trusted or [], "design_ref": design_ref, "technique": technique, "level_text": level_text, "level_note": level_note}
 
@@ -107,8 +113,8 @@ PROPS = {
         "I-B: histories over {insert, remove, batch, rotate, flush(wm), Leveled(l0 1-4, target 1-4096 B, wm), major, MoveDown, PullDown, reopen-after-flush} x configs (block size 1..4096, restart interval, hash ratio, partitioned/pinned index+filter, bloom none/bpk/fpr, cache 0..8 MiB, fd table none/1/2/64), standard and key-value-separated; after EVERY op the real tree's full state (history, memtables, every table's contents and metadata) is compared with the Lean model's prediction, every observed Leveled choice is checked against Admissible and every cut against cutsBetweenKeys, and get / contains_key / size_of of every key are compared with an ordered-map oracle; non-trivial = >= 1 version-changing compaction and >= 2 flushes",
         TECH,
         "c01_point_read_refines_map: for EVERY history of the alphabet whose observed decisions are admissible (okStep: Admissible choice, cuts between distinct user keys, fresh ids) and every snapshot at or above the counter, get returns the last write (value, or absent after a delete); corollaries: a deleted key never reappears, an overwritten value never resurfaces; c01_good_invariant: sortedness, run disjointness, metadata and read order hold in every reachable state.",
-        "leveled size scoring is not modelled: its choice is an observed input constrained by Admissible (checked on every observed choice); bloom filter / hash index / block layout are C11/C12's subject (a table is its entry list here); proved for standard trees (blob trees: validated by correspondence, C08)",
-        "7 C01"),
+        "leveled size scoring is not modelled: its choice is an observed input constrained by Admissible (checked on every observed choice); for major, pull-down and move-down (under P5) admissibility of the modelled choice function is a theorem (c01_major_okStep, c01_pulldown_okStep, c01_movedown_okStep); bloom filter / hash index / block layout are C11/C12's subject (a table is its entry list here); proved for standard trees (blob trees: validated by correspondence, C08)",
+        "7 C01", modules=["C01", "C01b"]),
     "C06": entry(
         "Background flushes and compactions never change what readers see or lose a write",
         [{"args": ["id"], "cases": {"quick": 120, "thorough": 6000}}, {"args": ["id", "--inflight"], "cases": {"quick": 120, "thorough": 6000}}, {"args": ["id", "--blob", "1"], "cases": {"quick": 60, "thorough": 3000}}],
